@@ -210,6 +210,35 @@ class Gen:
             return self._new('zip_latest', ups, ('tup', k))
         raise ValueError(op)
 
+    def _feedback_general(self):
+        """v -> map(half) -> filter(pos) -> filter(small) -> unique -> (back into an ancestor of v, or v itself).
+        The unbounded unique over {1,2,3} bounds the total number of re-entries of the whole run by three."""
+        r = self.r
+        cands = [n['id'] for n in self.nodes if n['op'] not in ('source', 'sink', 'sink_flush', 'collect')]
+        if not cands:
+            return None
+        specs = {n['id']: n for n in self.nodes}
+        holders = [c for c in cands if specs[c]['op'] in ('zip', 'combine_latest', 'zip_latest', 'partition',
+                                                          'partition_unique', 'sliding_window', 'accumulate')]
+        v = r.choice(holders) if holders and r.random() < 0.7 else r.choice(cands)
+        targets = []
+        for x in sorted(self.anc[v] | {v}):
+            sx = specs[x]
+            if sx['op'] in ('map', 'filter', 'unique', 'union', 'accumulate', 'sliding_window', 'partition',
+                            'partition_unique') and sx['ups'] and self.kind[sx['ups'][0]] in ('int', 'any'):
+                if sx['op'] == 'map' and sx.get('f') in ('rep',):
+                    continue
+                targets.append(x)
+        if not targets:
+            return None
+        x = r.choice(targets)
+        m = self._new('map', [v], 'int', f='half')
+        f1 = self._new('filter', [m], 'int', p='pos')
+        f2 = self._new('filter', [f1], 'int', p='small')
+        g = self._new('unique', [f2], 'int', maxsize=None, key='ident', hashable=True)
+        self.extra.append([g, x])
+        return g
+
     def _feedback(self):
         """u -> union -> map(half) -> guard -> (back to the union)"""
         r = self.r
@@ -236,14 +265,21 @@ class Gen:
             self.entry_kinds[e] = kind
         target = r.randrange(3, self.max_nodes + 1)
         did_fb = False
+        general_fb = self.allow_feedback and r.random() < 0.12
+        saved_collect = self.allow_collect
+        if general_fb:
+            self.allow_collect = False      # a flush trigger must never end up downstream of its own collector
         tries = 0
         while len(self.nodes) < n_entries + target and tries < 80:
             tries += 1
-            if self.allow_feedback and not did_fb and r.random() < 0.04:
+            if self.allow_feedback and not general_fb and not did_fb and r.random() < 0.04:
                 self._feedback()
                 did_fb = True
                 continue
             self._add(r.choice(self.ops))
+        if general_fb:
+            self._feedback_general()
+        self.allow_collect = saved_collect
         # sinks on every leaf and on some inner nodes
         has_child = set()
         for n in self.nodes:
